@@ -10,7 +10,8 @@ package app_test
 //   C03  exact rational walk of the constant-liquidity curve through the same ticks; estimate == execute;
 //        estimates leave the store untouched; there-and-back never profits
 //   C01  on a discarded branch everybody claims and withdraws everything; claimable sums <= balances
-//   C08  twin positions earn identical rewards, k-fold liquidity earns k-fold, never-in-range earns
+//   C08  (uptime incentives on random subsets of the six supported uptimes: cl_incentives_test.go)
+//        twin positions earn identical rewards, k-fold liquidity earns k-fold, never-in-range earns
 //        nothing, total claimable <= paid in, claims neither lose nor duplicate.
 
 import (
@@ -74,6 +75,11 @@ type clEngine struct {
 	lastSwap     swapRes
 	landedNow    bool     // the last swap ended exactly on an initialised tick
 	wantSolvency bool     // run the everybody-withdraws oracle right after this op
+	auth         []int    // indices (into types.SupportedUptimes) of the uptimes authorised in this history (AuthorizedUptimes param)
+	forceUptime  int      // uptime index the next incentive record must use (scripted sequences); -1 = random
+	extra        []*clExtra // additional concentrated pools of the history (cl_pools_test.go), oracle-only
+	resetDone    bool       // the `clp reset` line of the history has been written
+	mainPool     uint64     // pool id of the pool under test while the book oracle runs on another pool
 }
 
 // scriptStep: one op of a directed sequence (property C08: accrue -> partial withdraw / add / transfer -> (swap) -> claim
@@ -101,6 +107,11 @@ const (
 	kCreate      = 204
 	kIncentiveDry = 205 // incentive record that runs dry within the next time advance
 	kAdvanceLong = 206 // idle jump that overshoots the end of the running records
+	// uptime sequences (arg of kAdvanceAge: uptime index * 8 + age class, see advanceToAge)
+	kAdvanceAge      = 207 // block-time advance that puts the position at an age relative to an uptime (1 ns below, exactly at, 1 ns above, above, far above, below)
+	kIncentiveUptime = 208 // incentive record on the uptime with index arg
+	kCreateIn        = 209 // new position whose range contains the current tick
+	kWithdrawFull    = 210 // complete withdrawal of the position
 )
 
 // replay: the op lines of the current history (what `./check --replay` / the Lean driver would be fed), shortened to the
@@ -438,11 +449,28 @@ func runCL(t *testing.T, seed int64, n int, dir string) {
 	done := 0
 	for done < n {
 		h.Reset()
-		e := &clEngine{h: h, o: o, r: r, pos: map[uint64]*clPos{}, inc: newIncState()}
-		{ // incentives may be created for the first four supported uptimes (1ns, 1min, 1h, 1d)
+		e := &clEngine{h: h, o: o, r: r, pos: map[uint64]*clPos{}, inc: newIncState(), forceUptime: -1}
+		authMask := 0
+		{ // a random non-empty subset of the six supported uptimes (1ns, 1min, 1h, 1d, 1w, 2w) is authorised per history; one history
+			// in eight keeps the chain default (1ns only)
 			prm := h.App.ConcentratedLiquidityKeeper.GetParams(h.Ctx)
-			prm.AuthorizedUptimes = cltypes.SupportedUptimes[:4]
+			if r.Intn(8) == 0 {
+				authMask = 1
+			} else {
+				for authMask&^1 == 0 { // at least one non-default uptime
+					authMask = r.Intn(64)
+				}
+			}
+			prm.AuthorizedUptimes = nil
+			for i, u := range cltypes.SupportedUptimes {
+				if authMask>>i&1 == 1 {
+					prm.AuthorizedUptimes = append(prm.AuthorizedUptimes, u)
+					e.auth = append(e.auth, i)
+					o.Count("pool.authorized-uptime:" + uptimeLabel(i))
+				}
+			}
 			h.App.ConcentratedLiquidityKeeper.SetParams(h.Ctx, prm)
+			o.Count(fmt.Sprintf("pool.authorized-uptimes=%d", len(e.auth)))
 		}
 		e.feesPaid = [2]*big.Int{new(big.Int), new(big.Int)}
 		e.feesOut = [2]*big.Int{new(big.Int), new(big.Int)}
@@ -464,6 +492,24 @@ func runCL(t *testing.T, seed int64, n int, dir string) {
 		if r.Intn(2) == 0 { // the incentive accumulators have their own migration threshold
 			h.App.ConcentratedLiquidityKeeper.SetIncentivePoolIDMigrationThreshold(h.Ctx, 1<<40)
 		}
+		// other concentrated pools with LOWER pool ids (cl_pools_test.go); one history in eight is the only pool of its chain
+		nLower, nHigher := 0, 0
+		if r.Intn(8) != 0 {
+			nLower, nHigher = r.Intn(3), r.Intn(3)
+			if r.Intn(6) == 0 { // pool ids 1 / 10 / 11
+				if r.Intn(2) == 0 {
+					nLower = 1
+					e.addExtraPool(r.Intn(3) != 0)
+					e.fillerPools(8)
+					nLower = 0
+				} else {
+					nHigher = -1
+				}
+			}
+		}
+		for i := 0; i < nLower; i++ {
+			e.addExtraPool(r.Intn(3) != 0)
+		}
 		p := h.PrepareCustomConcentratedPool(e.accs[0], clDenom0, clDenom1, uint64(e.spacing), e.spf)
 		e.poolId = p.GetId()
 		scale, err := h.App.ConcentratedLiquidityKeeper.VerifSpreadFactorScalingFactor(h.Ctx, e.poolId)
@@ -476,7 +522,19 @@ func runCL(t *testing.T, seed int64, n int, dir string) {
 		}
 		e.inc.t0 = h.Ctx.BlockTime()
 		e.scale, e.ifactor = scale, ifactor
-		o.Emit(fmt.Sprintf("clp reset %d %s %s %s %d", e.spacing, e.spf.BigInt(), scale.BigInt(), ifactor.BigInt(), 4), "ok", true)
+		o.Emit(fmt.Sprintf("clp reset %d %s %s %s %d", e.spacing, e.spf.BigInt(), scale.BigInt(), ifactor.BigInt(), authMask), "ok", true)
+		e.resetDone = true
+		if nid := h.App.ConcentratedLiquidityKeeper.GetNextPositionId(h.Ctx); nid != 1 {
+			o.Emit(fmt.Sprintf("clp setnextid %d", nid), "ok", true)
+		}
+		if nHigher < 0 { // the pool under test is pool 1 (or follows the lower ones); fill up to id 9, then pools 10 and 11
+			e.fillerPools(int(9 - e.poolId))
+			nHigher = 2
+		}
+		for i := 0; i < nHigher; i++ {
+			e.addExtraPool(r.Intn(3) != 0)
+		}
+		o.Count(fmt.Sprintf("pools.lower=%d,higher=%d", len(e.extra)-nHigher, nHigher))
 		o.Count("pool.incfactor" + ifactor.String()[:4])
 		o.Count("pool.scale" + scale.String()[:4])
 		o.Count(fmt.Sprintf("pool.spacing%d", e.spacing))
@@ -490,9 +548,14 @@ func runCL(t *testing.T, seed int64, n int, dir string) {
 			done++
 			e.opn++
 			e.landedNow, e.wantSolvency = false, false
+			xsnap := e.extraSnapshots()
 			e.step()
+			if e.opClass != "other-pool" { // frame: an op on the pool under test changes nothing in the other pools
+				e.extraFrame(xsnap)
+			}
 			// C07 right after the op (in particular right after a swap that ended exactly on an initialised tick)
 			e.oracleBookkeeping()
+			e.extraBookkeeping()
 			// partial fills at the price limit from this state, on a discarded branch (more often while the history is young:
 			// few ticks, so that the final integer conversion is not buried under the per-step roundings)
 			if len(e.pos) > 0 && (e.opn <= 12 || e.r.Intn(4) == 0) {
@@ -509,6 +572,7 @@ func runCL(t *testing.T, seed int64, n int, dir string) {
 			o.Emit("clp fdump", e.dumpFeesImpl(), true)
 			o.Emit("clp idump", e.dumpIncImpl(), true)
 			e.oracleNoLoss(e.opClass)
+			e.oracleJoinTimes()
 			e.oracleIncentives()
 			if e.r.Intn(3) == 0 {
 				o.Emit("clp dump", e.dumpImpl(), true)
@@ -535,11 +599,17 @@ func (e *clEngine) step() {
 			}
 		}
 	}
+	if len(e.extra) > 0 && len(e.queue) == 0 && e.r.Intn(12) == 0 { // an op on one of the other pools (oracle-only)
+		e.opClass = "other-pool"
+		e.otherPoolOp()
+		return
+	}
 	k := e.h.App.ConcentratedLiquidityKeeper
 	ms := cl.NewMsgServerImpl(k)
 	o := e.o
 	kind := e.r.Intn(100)
 	e.forced, e.forcePos = false, 0
+	e.inc.opYoung = map[string]bool{} // set by the claim-like op of this step (claimClasses), read by oracle (b) after it
 	arg := 0
 	if len(e.queue) > 0 {
 		st := e.queue[0]
@@ -617,6 +687,12 @@ func (e *clEngine) step() {
 		st := e.queue[0]
 		e.queue = e.queue[1:]
 		kind, arg, e.forced = st.kind, st.arg, true
+	} else if nd := e.nonDefaultAuth(); len(nd) > 0 && len(e.pos) > 0 && e.r.Intn(7) == 0 {
+		e.queue = e.uptimeScript(nd)
+		o.Count("script.uptime-sequence")
+		st := e.queue[0]
+		e.queue = e.queue[1:]
+		kind, arg, e.forced = st.kind, st.arg, true // the first step never names a position
 	} else if len(e.pos) > 0 && e.r.Intn(9) == 0 {
 		// directed sequence on one position, preferably one that is in range now (so that the first swap accrues to it)
 		q := e.anyPos()
@@ -672,9 +748,15 @@ func (e *clEngine) step() {
 		kind, e.forced = st.kind, true
 	}
 scripted:
-	fullRange, smallFirst := false, false
+	fullRange, smallFirst, inRange, fullWithdraw := false, false, false, false
 	if kind == kCreate {
 		kind, fullRange, smallFirst = 0, arg >= 1, arg == 2
+	}
+	if kind == kCreateIn {
+		kind, inRange = 0, true
+	}
+	if kind == kWithdrawFull {
+		kind, fullWithdraw = kWithdraw, true
 	}
 	if len(e.pos) == 0 && kind != 0 {
 		kind = 0
@@ -720,6 +802,14 @@ scripted:
 	case kind == kAdvanceLong:
 		e.opClass = "advance"
 		e.advanceTime(e.overshootDuration())
+	case kind == kAdvanceAge:
+		e.opClass = "advance"
+		e.advanceToAge(e.anyPos(), arg/8, arg%8)
+	case kind == kIncentiveUptime:
+		e.opClass = "create-incentive"
+		e.forceUptime = arg
+		e.createIncentiveClass("")
+		e.forceUptime = -1
 	case kind < 28: // create position (sometimes as twin / k-multiple of the previous one)
 		e.opClass = "create"
 		owner := e.r.Intn(3)
@@ -744,6 +834,19 @@ scripted:
 			if !fullRange && e.r.Intn(3) == 0 {
 				lower, upper = -100000*e.spacing, 100000*e.spacing
 			}
+		} else if inRange { // a range around the current tick (the position earns incentives from its first moment)
+			cur := e.pool().GetCurrentTick()
+			base := cur - ((cur%e.spacing)+e.spacing)%e.spacing
+			lower = base - int64(e.r.Intn(200))*e.spacing
+			upper = base + int64(1+e.r.Intn(200))*e.spacing
+			if lower < cltypes.MinInitializedTick {
+				lower = cltypes.MinInitializedTick
+			}
+			if upper > cltypes.MaxTick {
+				upper = cltypes.MaxTick
+			}
+			a0 = new(big.Int).Mul(big.NewInt(int64(1+e.r.Intn(1000))), pow10(6+e.mag+e.r.Intn(4)))
+			a1 = new(big.Int).Mul(big.NewInt(int64(1+e.r.Intn(1000))), pow10(6+e.mag+e.r.Intn(4)))
 		}
 		id, ok := e.create(owner, lower, upper, a0, a1)
 		if ok && e.r.Intn(3) == 0 { // fairness twins: same block, same range, same amounts, other owner
@@ -775,6 +878,9 @@ scripted:
 		sel := e.r.Intn(5)
 		if e.forced {
 			sel = 0 // scripted: a genuine partial withdrawal
+		}
+		if fullWithdraw {
+			sel = 3
 		}
 		snap := e.incBefore(q, owner)
 		switch sel {
@@ -955,6 +1061,7 @@ scripted:
 		e.opClass = "transfer"
 		q := e.anyPos()
 		to := (q.owner + 1 + e.r.Intn(2)) % 3
+		tsnap := e.transferBefore(q)
 		err := e.atomic(func(ctx sdk.Context) error {
 			_, err := ms.TransferPositions(ctx, &cltypes.MsgTransferPositions{PositionIds: []uint64{q.id}, Sender: e.accs[q.owner].String(), NewOwner: e.accs[to].String()})
 			return err
@@ -974,6 +1081,7 @@ scripted:
 		}
 		q.owner = to
 		q.untouched = false
+		e.transferAfter(tsnap)
 	}
 }
 
